@@ -125,7 +125,7 @@ def run(ctx):
         "exact vectors: the documented sums are taken from the FFTPACK definitions (1-based) the package translates; "
         "dense inputs rely on the inversion theorems, which TLC checks only where the dense sum is itself computable "
         "(n <= 12 with rational angles)",
-        "exact vectors are compared within 8192*n*2^-52*|x|_1 (rounding of the O(n log n)..O(n p) algorithms)",
+        "exact vectors are compared within (1024*n + 8*G^2)*2^-52*|x|_1, G = largest prime factor of n-1, n, n+1 (rounding behaviour of FFTPACK's general-radix pass, measured)",
     ]
     return ctx.finish(
         rule="R3: one case = one successful transform call of a recorded history (incl. its mirror on a brand-new "
